@@ -261,7 +261,7 @@ class ECollection(PyEcoreValue):
                      ._set(None, update_opposite=False)
         else:
             # the value is taken away from its previous partner
-            if opposite is not None and opposite is not new_value:
+            if opposite is not None and not _stands_for(opposite, new_value):
                 opposite.__dict__[self.feature._name] \
                         .remove_or_unset(owner, update_opposite=False)
             owner.__dict__[opposite_name] \
